@@ -2,7 +2,7 @@
 # MANIFEST.setup_cmd: build the whole Coq development from files on disk (full .vo build).
 set -e
 cd "$(dirname "$0")"
-export PYTHONHASHSEED=0 PYTHONPATH=/repo PYTHONDONTWRITEBYTECODE=1
+export PYTHONHASHSEED=0 PYTHONPATH=${VERIF_REPO:-/repo} PYTHONDONTWRITEBYTECODE=1
 mkdir -p evidence replays .work coq/Gen
 /venv/bin/python harness/setup.py
 cd coq
